@@ -12,7 +12,7 @@ trap cleanup EXIT INT TERM
 git -C /repo worktree add -q --detach "$SCR/repo" HEAD || exit 3
 DEMO="$(python3 -c "import json,sys;print(json.load(open('$DIR/meta.json'))['demo_cmd'])")"
 # the demo command may refer to the directory the sub-agent wrote to
-DEMO="$(echo "$DEMO" | sed "s#/var/tmp/seedout_[A-Za-z0-9_]*#$DIR#g")"
+DEMO="$(echo "$DEMO" | sed "s#/var/tmp/seedout_[A-Za-z0-9_-]*#$DIR#g")"
 cd "$SCR/repo"
 sh -c "$DEMO" > "$SCR/unchanged.txt" 2>&1; U=$?
 git status --short | grep -v '^??' | head -3
